@@ -8,7 +8,7 @@
     computed with the real library for every float token of the input. *)
 From Coq Require Import List NArith Bool.
 From Verif Require Import Lib.Utf8 Jsonx.Lex Jsonx.Pos Jsonx.Tok Jsonx.GoStr Jsonx.Num
-  Jsonx.Parse Jsonx.Json Jsonx.Encode Jsonx.Script Jsonx.Print.
+  Jsonx.Parse Jsonx.Json Jsonx.Encode Jsonx.Script Jsonx.Print Jsonx.FileModel.
 Import ListNotations.
 Local Open Scope N_scope.
 
@@ -78,6 +78,7 @@ Inductive ccase :=
           (out : option (list (list N * list N))) (errs : list N)
 | CStream (input : list N) (ft : ftable) (vals : list (list N)) (fin : N) (errs : list N)
 | CScript (input : list N) (ft : ftable) (known : list (list N)) (ops : list N) (obs : list sobs)
+| CFileHist (nonprint : list N) (steps : list (pvalue * list N))
 | CShell (input : list N) (out : option (list (list N))) (errs : list N)
 | CUnquote (lit : list N) (out : option (list N))
 | CJsonQuote (bs : list N) (out : list N)
@@ -181,6 +182,16 @@ Definition check_case (c : ccase) : bool :=
       | Ok l => list_eqb2 sres_eqb l obs
       | _ => false
       end
+  | CFileHist nonprint steps =>
+      (* WriteFile again and again on one path: after each call the file is what the printer prints *)
+      let isp := fun r => negb (existsb (N.eqb r) nonprint) in
+      (fix go (f : fs) (l : list (pvalue * list N)) : bool :=
+         match l with
+         | [] => true
+         | (v, out) :: r =>
+             let f' := write_file Replace f 0 (print_doc isp v) in
+             opt_eqb list_N_eqb (read_file f' 0%nat) (Some out) && go f' r
+         end) fs0 steps
   | CShell input out errs =>
       match shell_parse (utf8_decode input) with
       | Ok (o, e) => opt_eqb (list_eqb list_N_eqb) o out && list_N_eqb (codes e) errs
